@@ -138,21 +138,21 @@ func dedupe(s []string) []string {
 	return out
 }
 
-func TestC02(t *testing.T) {
-	rapid.Check(t, func(t *rapid.T) {
-		zone := rapid.SampledFrom(rgen.Zones).Draw(t, "zone")
-		o := rgen.DefaultGenOpts(zone)
-		o.NoPartialDescriptors = true
-		if tierThorough() {
-			o.MaxTrips, o.MaxVehicles, o.MaxAlerts, o.MaxSTU, o.MaxSelectors = 10, 8, 5, 12, 8
-		}
-		m, info := rgen.GenMsg(t, o)
-		c := CaseRT{Zone: zone, Msg: m}
-		classes, nt := rtClasses(c, info)
-		c02Rec.Eval(classes...)
-		if nt {
-			c02Rec.NontrivialCase(vt.Fingerprint(c), func() any { return c })
-		}
-		vt.Run(t, c02Rec, c, checkC02)
-	})
+func TestC02(t *testing.T) { rapid.Check(t, propC02) }
+
+func propC02(t *rapid.T) {
+	zone := rapid.SampledFrom(rgen.Zones).Draw(t, "zone")
+	o := rgen.DefaultGenOpts(zone)
+	o.NoPartialDescriptors = true
+	if tierThorough() {
+		o.MaxTrips, o.MaxVehicles, o.MaxAlerts, o.MaxSTU, o.MaxSelectors = 10, 8, 5, 12, 8
+	}
+	m, info := rgen.GenMsg(t, o)
+	c := CaseRT{Zone: zone, Msg: m}
+	classes, nt := rtClasses(c, info)
+	c02Rec.Eval(classes...)
+	if nt {
+		c02Rec.NontrivialCase(vt.Fingerprint(c), func() any { return c })
+	}
+	vt.Run(t, c02Rec, c, checkC02)
 }
